@@ -396,6 +396,19 @@ func c16Run(c c16Case, seed string) (sig, msg string, nontrivial bool, inconclus
 			case "no-challenge":
 				data = []byte("no challenge at all")
 				authentic = false
+			case "challenge-prefix":
+				// the owner's key over a leading fragment of the live challenge: not the server-issued challenge
+				if len(data) > 1 {
+					cut := []int{1, 16, 64, len(data) - 1}[int(op.By)%4]
+					if cut >= len(data) {
+						cut = len(data) - 1
+					}
+					data = append([]byte(nil), data[:cut]...)
+				}
+				authentic = false
+			case "challenge-extended":
+				data = append(append([]byte(nil), data...), 0)
+				authentic = false
 			}
 			nontrivial = nontrivial || !authentic
 			req := signedHash(about.Addr, data, signer)
@@ -552,7 +565,7 @@ func TestC16(t *testing.T) {
 			case "reject":
 				op.Variant = rapid.SampledFrom([]string{"receiver", "receiver", "issuer", "stranger", "claims-receiver-signs-other", "bitflip"}).Draw(rt, "variant")
 			case "waiting", "history":
-				op.Variant = rapid.SampledFrom([]string{"fresh", "fresh", "superseded", "foreign-challenge", "other-key", "no-challenge"}).Draw(rt, "variant")
+				op.Variant = rapid.SampledFrom([]string{"fresh", "fresh", "superseded", "foreign-challenge", "other-key", "no-challenge", "challenge-prefix", "challenge-extended"}).Draw(rt, "variant")
 			case "balance":
 				op.Variant = rapid.SampledFrom([]string{"own", "own", "other-key", "data-not-address", "challenge-as-data", "forged-after-own-read", "forged-after-own-read"}).Draw(rt, "variant")
 			}
